@@ -9,7 +9,7 @@ if [ -n "$(git status --porcelain --untracked-files=no)" ]; then echo "refusing:
 git apply "$patch" || { echo "patch does not apply"; exit 2; }
 trap 'git -C /repo checkout -- . ; rm -f /verif/replays/*' EXIT
 for p in "$@"; do
-  out=$(cd /verif && ./check "$p" --tier quick --no-evidence 2>&1); rc=$?
+  out=$(cd /verif && timeout 900 ./check "$p" --tier quick --no-evidence 2>&1); rc=$?
   classes=$(echo "$out" | grep -o "class=[^ ]*" | sort -u | head -4 | tr '\n' ' ')
   echo "RESULT patch=$(basename $(dirname $patch))/$(basename $patch) check=$p exit=$rc $classes"
 done
